@@ -6,6 +6,7 @@ import os
 from fractions import Fraction
 
 from ..core import frac
+from . import _c16ext
 
 LEVEL = "proof"
 RULE = ("bin tables of 1..5 chromosomes with 0..12 genes of 1..10 bins (names G1.., in 30% of the tables also realistic "
@@ -51,6 +52,7 @@ TRUSTED_EXTRA = ["pandas groupby(sort=False), DataFrame.iloc/loc slicing, np.ave
                  "genemetrics are re-read from cnvlib into Generated/ExprsByGene.lean, ExprsGeneMetrics.lean "
                  "(Props/C16SrcByGene.lean, C16SrcReports.lean: the model equals them)",
                  "biweight_location (default squash summary, C19): only coordinates / row count compared"]
+ONLY_OP = os.environ.get("C16_ONLY_OP")  # development: restrict the generated and corpus cases to one op
 PREFIX = bool(os.environ.get("C16_PREFIX_MODEL"))  # development: compare with the model of the code before fix L
 OTHER = ["Antitarget", "Antitarget", "-", ".", "CGH", "Background"]
 ODD_GENES = ["GNAS", "G6PD", "GATA3-AS1", "G.1", "GCGH", "GAntitarget", "G-", "GBackground", "Gcgh", "G_Antitarget"]
@@ -466,6 +468,10 @@ def corpus():
     if PREFIX:
         for c in cs:
             c["in"]["prefix"] = True
+    else:
+        cs += _c16ext.corpus() + _c16ext.sq_corpus()
+    if ONLY_OP:
+        cs = [c for c in cs if c["op"] == ONLY_OP]
     return cs
 
 
@@ -498,6 +504,10 @@ def gen_cases(rng, tier):
         if k % 8 == 0:
             op = ("by_gene", "genemetrics", "squash_genes", "breaks")[(k // 8) % 4]
             cases.append(_case(rng, op, True, small))
+    if not PREFIX:
+        cases += _c16ext.gen(rng, tier) + _c16ext.sq_gen(rng, tier)
+    if ONLY_OP:  # development (mutation self-tests): one op only
+        cases = [c for c in cases if c["op"] == ONLY_OP]
     return cases
 
 
@@ -793,6 +803,10 @@ def _run_cli(case):
 def run_impl(case):
     from cnvlib import reports
 
+    if case["op"] == "gene_map":
+        return _c16ext.run_impl(case)
+    if case["op"] == "squash_cols":
+        return _c16ext.sq_run(case)
     i = case["in"]
     if i.get("cli"):
         return _run_cli(case)
@@ -870,7 +884,7 @@ def _is_err(impl):
 
 def to_line(case, impl):
     inp = {k: v for k, v in case["in"].items() if not k.endswith("_f") and k not in (
-        "cli", "cli_opts", "cols", "seg_repr", "call", "parx", "ignore_tuple")}
+        "cli", "cli_opts", "cols", "seg_repr", "call", "parx", "ignore_tuple", "null", "how")}
     line = {"op": case["op"], "in": inp}
     if isinstance(impl, dict) and impl.get("reread"):
         # a command-line case: the model gets the tables the command read from the files
@@ -933,6 +947,8 @@ def judge(case, impl, resp):
             dis = _cmp_rows("squash", out, impl, (0, 1, 2, 3), (4, 5))  # a table without weights
         else:
             dis = _cmp_rows("squash", out, impl, (0, 1, 2, 3), (4, 5, 6))
+    elif op in ("gene_map", "squash_cols"):
+        dis = _c16ext.judge_dis(out, impl)
     elif op == "breaks":
         key = lambda r: (r[1], r[2], r[0], r[4], r[5])
         got = impl["breaks"] if isinstance(impl, dict) else impl  # a command-line case carries the re-read input too
@@ -947,10 +963,19 @@ def judge(case, impl, resp):
 def nontrivial(case, impl, resp):
     if _is_err(impl) or not resp.get("wf", True):
         return False
+    if case["op"] == "squash_cols":
+        return len(case["in"]["rest"]) >= 2
+    if case["op"] == "gene_map":
+        return _c16ext.nontrivial(case)
     return any(r[4].startswith("G") for r in case["in"]["rows"])
 
 
 def shrink(case):
+    if case["op"] == "squash_cols":
+        return
+    if case["op"] == "gene_map":
+        yield from _c16ext.shrink(case)
+        return
     rows = case["in"]["rows"]
     for k in range(len(rows)):
         c = {"op": case["op"], "tag": "shrunk", "in": dict(case["in"])}
